@@ -56,14 +56,22 @@ def gen(rng, tier):
             if rng.random() < 0.5:
                 r['sleep'] = r['timeout']        # completion vs. timeout
         reqs.append(r)
+    # some requests enter through the master's task service (Master._run_task,
+    # as called by code running in a worker): drawn last so that the request
+    # streams of earlier seeds stay what they were
+    for r in reqs:
+        if r['mode'] not in ('executable', 'meth') and rng.random() < 0.2:
+            r['via'] = 'service'
+            r['cores'], r['gpus'] = 1, 0
     ops = list()
     if rng.random() < 0.2:
         ops.append([round(rng.uniform(0.5, 3.0), 2), 'late_master'])
     return {'n_cores': n_cores, 'n_gpus': n_gpus, 'reqs': reqs, 'ops': ops,
             'late_master': rng.random() < 0.3,
             'delay_max': rng.choice([0.0, 0.0, 0.05]),
-            'stall': rng.choice([0.0, 0.0, 0.02]),
-            'fork_fail': rng.choice([0.0, 0.0, 0.0, 0.1, 0.3])}
+            'stall': rng.choice([0.0, 0.0, 0.02, 0.05]),
+            'fork_fail': rng.choice([0.0, 0.0, 0.0, 0.1, 0.3]),
+            'slow_service': rng.choice([0.0, 0.0, 0.2])}
 
 
 # ------------------------------------------------------------------------------
@@ -114,7 +122,7 @@ def attach_payloads(worker):
         setattr(worker, f.__name__, staticmethod(f))
 
 
-def make_request(i, r, side):
+def make_descr(i, r):
     uid = 'req.%04d' % i
     d = {'uid': uid, 'raptor_id': MASTER, 'ranks': 1, 'cores_per_rank': 1,
          'environment': {'C20_REQ': uid}}
@@ -150,6 +158,12 @@ def make_request(i, r, side):
         d['executable'] = '/bin/true'
     if r.get('timeout'):
         d['timeout'] = r['timeout']
+    return d
+
+
+def make_request(i, r, side):
+    d = make_descr(i, r)
+    uid, mode = d['uid'], r['mode']
     td = rp.TaskDescription(d)
     td.verify()
     task = A.make_task(side, uid, td.as_dict(),
@@ -206,8 +220,8 @@ class _Server(object):
     def __deepcopy__(self, memo):
         return self
 
-    def register_request(self, *a, **k):
-        pass
+    def register_request(self, name, cb, *a, **k):
+        self.__dict__.setdefault('handlers', dict())[name] = cb
 
     def start(self):
         pass
@@ -227,7 +241,8 @@ def run(seed, scenario, trace=None, tier='quick'):
         st = {'side': None, 'master': None, 'worker': None, 'allocs': [],
               'held': {}, 'results': {}, 'exec_routed': {}, 'tasks': {},
               'env_before': None, 'worker_proc': None, 'dispatched': set(),
-              'proc_uid': {}, 'fork_failed': set(), 'cur_req': None}
+              'proc_uid': {}, 'fork_failed': set(), 'cur_req': None,
+              'svc': {}}
         sim.data['c20'] = st
 
         def os_process(name, environ, cwd):
@@ -248,6 +263,10 @@ def run(seed, scenario, trace=None, tier='quick'):
             _rsys.stdout = proc.ctx.get('stdout', _real[0])
             _rsys.stderr = proc.ctx.get('stderr', _real[1])
         sim.ctx_hooks = [(_save, _restore)]
+
+        if sc.get('slow_service'):
+            # the task service threads of the master are slow
+            sim.slow['svc.'] = (sc['slow_service'], 0.5)
 
         if sc.get('fork_fail'):
             # fork() of a request process fails (EAGAIN); the request then
@@ -355,6 +374,21 @@ def run(seed, scenario, trace=None, tier='quick'):
             put = N.Putter(rpc.AGENT_SCHEDULING_QUEUE, url=reg[
                 'bridges.%s' % rpc.AGENT_SCHEDULING_QUEUE]['addr_put'])
 
+            def svc_call(i):
+                # a thread of the master's task service (ru.zmq.Server) serves
+                # one `run_task` request: returns when the result is in
+                sim.block(lambda: st['master'] is not None, 120.0,
+                          what='master')
+                d = make_descr(i, sc['reqs'][i])
+                del d['uid']
+                run_task = st['master']._task_service.handlers['run_task']
+                sim.probe('service_request')
+                ret = run_task(d)
+                st['svc'][i]['uid'] = ret['uid']
+                st['svc'][i]['ret'] = ret
+                sim.log('svc_return', i=i, uid=ret['uid'],
+                        exit_code=ret.get('exit_code'))
+
             tl = sorted((r['at'], i) for i, r in enumerate(sc['reqs']))
             t0 = sim.now
             started_master = not sc['late_master']
@@ -370,8 +404,13 @@ def run(seed, scenario, trace=None, tier='quick'):
                     sim.spawn(master_main, 'master.main', proc=mproc,
                               group='master')
                     started_master = True
+                if sc['reqs'][i].get('via') == 'service':
+                    st['svc'][i] = {'ret': None, 'uid': None}
+                    sim.spawn(lambda i=i: svc_call(i), 'svc.%d' % i,
+                              proc=mproc, group='master')
+                    continue
                 task = make_request(i, sc['reqs'][i], side)
-                st['tasks'][task['uid']] = task
+                st['tasks'][task['uid']] = i
                 put.put([task])
             if not started_master:
                 sim.spawn(master_main, 'master.main', proc=mproc,
@@ -382,7 +421,8 @@ def run(seed, scenario, trace=None, tier='quick'):
             while sim.now < limit:
                 sim.sleep(0.5)
                 if all(u in st['results'] or u in st['exec_routed']
-                       for u in st['tasks']) and net.idle():
+                       for u in st['tasks']) and net.idle() and \
+                        all(v['ret'] is not None for v in st['svc'].values()):
                     break
             sim.sleep(3.0)
 
@@ -448,8 +488,22 @@ def run(seed, scenario, trace=None, tier='quick'):
             for e in errs:
                 if '_result_watcher' in e.get('name', ''):
                     site = 'result_watcher_died:%s' % e['err'].split('(')[0]
-            for uid, task in sorted(st['tasks'].items()):
-                i = int(uid.split('.')[1])
+            judged = dict(st['tasks'])
+            m = st['master']
+            for i, v in sorted(st['svc'].items()):
+                if v['ret'] is None:
+                    # the service call never returned to its caller
+                    sim.violation(PROP, 'result_count', 'task_service',
+                                  {'req': sc['reqs'][i], 'pending': sorted(
+                                      getattr(m, '_task_service_data', {}))})
+                else:
+                    judged[v['uid']] = i
+            if m is not None and not any(v['ret'] is None
+                                         for v in st['svc'].values()) and \
+                    getattr(m, '_task_service_data', None):
+                sim.violation(PROP, 'result_count', 'task_service_leak',
+                              {'left': sorted(m._task_service_data)})
+            for uid, i in sorted(judged.items()):
                 r = sc['reqs'][i]
                 res = st['results'].get(uid, [])
                 routed = st['exec_routed'].get(uid, [])
@@ -470,6 +524,16 @@ def run(seed, scenario, trace=None, tier='quick'):
                 t = res[0]
                 ret = t.get('exit_code')
                 ts  = t.get('target_state')
+                if r.get('via') == 'service':
+                    sr = st['svc'][i]['ret']
+                    if sr.get('exit_code') != ret or \
+                            sr.get('return_value') != t.get('return_value'):
+                        sim.violation(PROP, 'result_tuple', 'task_service',
+                                      {'uid': uid, 'returned': [
+                                          sr.get('exit_code'),
+                                          sr.get('return_value')],
+                                       'reported': [ret,
+                                                    t.get('return_value')]})
                 if (ts == rps.DONE) != (ret == 0):
                     sim.violation(PROP, 'target_state', 'master',
                                   {'uid': uid, 'exit_code': ret,
@@ -563,8 +627,8 @@ def shrink(sc):
     for i in range(len(reqs)):
         if len(reqs) > 1:
             c = dict(sc); c['reqs'] = reqs[:i] + reqs[i + 1:]; out.append(c)
-    for k, val in (('delay_max', 0.0), ('stall', 0.0), ('late_master',
-                                                        False)):
+    for k, val in (('delay_max', 0.0), ('stall', 0.0), ('fork_fail', 0.0),
+                   ('late_master', False)):
         if sc.get(k) != val:
             c = dict(sc); c[k] = val; out.append(c)
     for i, r in enumerate(reqs):
@@ -580,7 +644,7 @@ BLOCK  = 10
 
 INFO = {
     'real': ['raptor.Master (__init__, control_cb, _request_cb, '
-             '_submit_tasks routing, _result_cb)', 'raptor.DefaultWorker '
+             '_submit_tasks routing, _result_cb, _run_task)', 'raptor.DefaultWorker '
              '(_request_cb, _alloc, _dealloc, _dispatch, _result_watcher, '
              '_result_cb)', 'raptor.Worker (__init__ registration handshake, '
              '_dispatch_func/_meth/_eval/_exec/_proc/_shell)', 'agent '
@@ -588,14 +652,17 @@ INFO = {
              'register/unregister_raptor_queue, backlog)'],
     'stub': ['ZMQ bridges/registry (simulated)', 'fork() = deep copy with '
              'shared IPC objects; per sim process os.environ, cwd, '
-             'sys.stdout/stderr', 'master task service (ru.zmq.Server) and '
-             'heartbeat timing', 'worker_mpi not covered', 'proc/shell '
+             'sys.stdout/stderr', 'master task service transport (ru.zmq.Server: the '
+             'registered run_task handler is called from simulated service '
+             'threads) and heartbeat timing', 'worker_mpi not covered', 'proc/shell '
              'payloads run real /bin/true, /bin/false, /bin/echo'],
     'rule': 'scenario = worker with 1-4 cores / 0-2 GPUs, 2-10 requests '
             '(function, method, eval, exec, proc, shell, executable) with '
             'seeded core/GPU demands, payloads that return, print, raise, '
             'change the environment or stdio, sleep on the virtual clock, '
             'time out (incl. completion == timeout), master registering '
-            'before or after the first requests; non-trivial = >=3 requests; '
+            'before or after the first requests, requests entering through '
+            'the scheduler or through the master task service, fork() '
+            'failures, slow service threads; non-trivial = >=3 requests; '
             'distinct = distinct event-log digest',
 }
